@@ -136,22 +136,49 @@ def script_facts(script: List[str]) -> dict:
 
 
 def scenario(name: str, worker: str, phases: List[str], await_s: float = AWAIT, hold: str = "short") -> dict:
+    """Timing discipline (as C15): the scenario clock is anchored to the lifespan application's own first recorded event
+    (`ls_start` = script time 0, `clock_anchor`), not to the wall clock of the process: what a client is meant to meet - the
+    application still inside its start-up `await`, the listener, a request in progress - is then a matter of the script's and
+    the worker's own events.  `before`: not gated at all (its connect precedes or coincides with the start of `worker_serve`);
+    `during`: a fraction of the application's start-up await after `ls_start`; `after` / `hold`: at their instant, but - when
+    the script is one after which a correct worker listens - not before the worker said it is listening; the trigger: at its
+    instant, but not before the requests that are to be in progress / done by then have reached the application.  These waits
+    never concern what is judged: when the worker does not do what the script lets expect, they run out (2 s), the run is
+    marked `harness_late`, repeated, and the last observation is judged as it is."""
     clients = []
+    facts = script_facts(SCRIPTS[name])
+    listens = not (facts["failed_before_complete"] or facts["hang_before_complete"])    # what a correct worker does with this script
     t_of = {"before": 0.0, "during": await_s * 0.45, "after": 2 * await_s + 0.1}
     immediate = SCRIPTS[name][:2] != ["recv", "await"]      # serving starts at once: "before" would race with the server's start
+    expected: Dict[str, int] = {}                           # requests that have reached the application before the trigger
     for cid, ph in enumerate(["before", "during", "after"]):
         if ph in phases and not (immediate and ph == "before"):
-            clients.append({"id": cid, "kind": "h1", "phase": ph,
-                            "steps": [["at", t_of[ph]], ["connect"], ["get", f"/state/{cid}"], ["read", 1.5], ["wait_close", 3.0]]})
+            # (a script that leaves the lifespan scope at once: serving starts at once, `during` is after that too)
+            serving_by_then = listens and (ph == "after" or (ph == "during" and immediate))
+            when = ["at_counts", t_of[ph], {"listening": 1}] if serving_by_then else ["at", t_of[ph]]
+            c = {"id": cid, "kind": "h1", "phase": ph,
+                 "steps": [when, ["connect"], ["get", f"/state/{cid}"], ["read", 1.5], ["wait_close", 3.0]]}
+            if ph == "before":
+                c["ungated"] = True
+            clients.append(c)
+            # asyncio refuses what comes before it listens; trio's listening socket queues it for the time serving starts
+            if serving_by_then or (listens and worker == "trio"):
+                expected[f"scope:/state/{cid}"] = 1
     trigger = 2 * await_s + 0.35
     if "hold" in phases:
         path = "/d/300/3" if hold == "short" else "/hang/3"
+        when = ["at_counts", trigger - 0.1, {"listening": 1}] if listens else ["at", trigger - 0.1]
         clients.append({"id": 3, "kind": "h1", "phase": "hold",
-                        "steps": [["at", trigger - 0.1], ["connect"], ["get", path], ["read", 2.0], ["wait_close", 2.0]]})
+                        "steps": [when, ["connect"], ["get", path], ["read", 2.0], ["wait_close", 2.0]]})
+        if listens:
+            expected[f"scope:{path}"] = 1
     sc = {"property": "C14", "name": name, "worker": worker, "lifespan": SCRIPTS[name], "await_s": await_s,
           "config": {"startup_timeout": T_START, "shutdown_timeout": T_SHUT, "graceful_timeout": T_GRACE},
           "clients": clients, "phases": phases, "hold": hold, "trigger_at": trigger,
+          "clock_anchor": "ls_start", "late_tolerance": round(min(0.05, 0.4 * await_s), 3),
           "observe_until": trigger + T_GRACE + T_SHUT + SLACK + 0.3, "client_grace": 0.3}
+    if expected:
+        sc["trigger_after"] = expected
     if name == "complete_late_state":
         sc["set_late_at"] = 2 * await_s
     return sc
@@ -290,9 +317,14 @@ def compare(ctx: Ctx, sc: dict, iv: dict, m: dict) -> None:
         diffs.append(("serve outcome", mv["outcome"], iv["outcome"]))
     elif mv["outcome"] == "raise" and [cls.get(mv["error"])] != sorted(set(iv["classes"])):
         diffs.append(("serve error", mv["error"], iv["classes"]))
-    if mv["outcome"] == iv["outcome"] and mv["return_s"] is not None and iv["return_s"] is not None \
-            and abs(mv["return_s"] - iv["return_s"]) > 0.5:
-        diffs.append(("return instant", mv["return_s"], iv["return_s"]))
+    # the model triggers at the instant the trigger is due, the harness when the requests that are to be in progress have
+    # reached the application: a return after the trigger is compared on the clock of the actual trigger
+    m_ret = mv["return_s"]
+    if m_ret is not None and mv["trigger_s"] is not None and iv["trigger_s"] is not None and m_ret >= mv["trigger_s"] - 1e-9:
+        m_ret += iv["trigger_s"] - mv["trigger_s"]
+    if mv["outcome"] == iv["outcome"] and m_ret is not None and iv["return_s"] is not None \
+            and abs(m_ret - iv["return_s"]) > 0.5:
+        diffs.append(("return instant", m_ret, iv["return_s"]))
     if mv["received"] != iv["received"]:
         diffs.append(("lifespan messages received", mv["received"], iv["received"]))
     warn_impl = sum(1 for _, lvl, msg in iv["logs"] if lvl == "warning" and "continuing without" in msg)
@@ -346,7 +378,7 @@ def evaluate(ctx: Ctx, scs: List[dict], procs: int = 14) -> None:
     if not ctx.extra.get("runtime_constants_checked"):
         ctx.extra["runtime_constants_checked"] = True
         wk.check_runtime_constants(ctx, flags)
-    obs = wk.run_many(scs, procs=procs)
+    obs = wk.run_disciplined(ctx, scs, procs)       # timing discipline: see worker.run_disciplined and `scenario`
     reqs = [wk.model_request(sc, "c14.run", flags) for sc in scs]
     model = ctx.model(reqs)
     for i, (sc, o) in enumerate(zip(scs, obs)):
